@@ -121,6 +121,14 @@ def jobs(prop, tier):
                          link=['lib/ebus/message.cpp'], models=['string', 'libc', 'sstream', 'posix', 'containers', 'libm'],
                          skip_ctors=['message', 'datatype'], solver=PORTFOLIO, timeout=900 if T else 250,
                          bounds='all level names of length %d over {a,b} x all level lists of length %d over {a,b,;,*}' % (la, lb)))
+    if prop == 'C13':
+        combos = [(1, 'a'), (2, 'ab'), (2, 'ba'), (3, 'abc'), (3, 'cab')] if not T else [(1, 'a'), (1, 'c'), (2, 'ab'), (2, 'ba'), (2, 'ac'), (3, 'abc'), (3, 'cab'), (3, 'bca'), (3, 'acb')]
+        for (nf, names) in combos:
+            J.append(Job('C13', 'hasfield_%s' % names, 'C13_hasfield.cpp', defs={'NF': nf, 'NAMES': '"%s"' % names}, unwind=8, shape='K',
+                         link=['lib/ebus/data.cpp', 'lib/ebus/datatype.cpp', 'lib/ebus/symbol.cpp', 'lib/ebus/result.cpp', 'lib/ebus/filereader.cpp', 'lib/ebus/contrib/contrib.cpp', 'lib/ebus/contrib/tem.cpp'],
+                         models=['string', 'libc', 'sstream', 'posix', 'containers', 'libm'],
+                         skip_ctors=['data.cpp', 'datatype', 'contrib', 'tem', 'filereader'], rtti=True, noop_containing=['_ZNSt8_Rb_tree+8_M_eraseEPSt13_Rb_tree_node'], solver=PORTFOLIO, timeout=900 if T else 250,
+                         bounds='%d fields named %s, every numeric/string kind assignment, every query (unnamed, a, b, c) x kind' % (nf, ','.join(names))))
     if prop == 'C07':
         J += numtype_jobs('C07', 'C07_parse.cpp', T, {}, 'parse_', solver='cadical', timeout=900 if T else 250)
     if prop == 'C12':
@@ -133,6 +141,12 @@ BUS_NOTE = ('Trusted: clang-14 lowering, ll2c, models (string, sstream, posix, c
             '(every read result = timeout | error | chunk of 1..2 arbitrary bytes), clock = arbitrary non-decreasing instants, logging off. '
             'DirectProtocolHandler::run() itself (thread start, 5 s reopen wait) is not encoded; its loop body is re-stated in env_bus.h Stepper.')
 META = {
+ 'C13': dict(
+   level_text='Bounded model checking of the real field lookup used when a condition is resolved (DataFieldSet::hasField / SingleDataField::hasField): for every assignment of numeric/string kinds to up to 3 named fields and every query (unnamed or named, numeric or string) the answer is true iff a field of that name and kind exists.',
+   level_note='Only the resolution predicate is decided. Outside: the value-history clause (SimpleCondition::isTrue over storeLastData updates and clock readings), range parsing, combined conditions, SimpleCondition::resolve message lookup by name -- these sit on Message/MessageMap objects (std::map of strings) that this encoding does not reach within the cap.',
+   outside_claim='availability over update histories (isTrue/checkValue), range/value-list parsing, combined and scan conditions, message lookup in resolve()',
+   assumptions=COMMON_ASSUME,
+ ),
  'C16': dict(
    level_text='Bounded model checking of the real Message::checkLevel (the predicate behind hasLevel on every read/write/poll/data-sink path): for every level name and every granted level list within the length bounds over an alphabet with separators and the wildcard, access is granted iff the list is "*" or contains the name as an exact token -- prefix, suffix and infix names never match.',
    level_note='Only the matching predicate is decided. Outside: the wiring of hasLevel into MainLoop::executeRead/Write/Find, MQTT/KNX handlers, user authentication (UserList), which are string/option-heavy functions beyond the reach of this encoding. Trusted: models/string.c (find/compare/operator[]).',
